@@ -995,4 +995,51 @@ def rule_handler_per_connection(ctx):
 
 
 
-RULES = [('C20.a', rule_a), ('C20.b', c06a), ('C20.c', c06b), ('C20.d', rule_d), ('C20.e', rule_e), ('C20.f', rule_f), ('C20.g', rule_g), ('C20.e+C20.g', rule_h), ('C15.d', rule_coroutines), ('C20.i', rule_i), ('C20.j', rule_j), ('C20.k', rule_k), ('C06.e', rule_queue_sources), ('C20.l', rule_empty_filter), ('C20.m', rule_handler_per_connection)]
+
+def rule_feeder_errors(ctx):
+    """C20.n  Errors are preserved by the feeders of the observable-backed publishers: in every `_aio_next` task of the
+    two back_pressure_publisher modules, each handler that catches Exception / BaseException hands the caught
+    exception to observer.on_error, a StopAsyncIteration of the wrapped generator becomes on_completed (or is logged
+    where the event stream itself carries the completion), and a materialised OnError / OnCompleted event is forwarded
+    and ends the task."""
+    rep = ctx.report
+    n = 0
+    for pkg in PKGS:
+        m = ctx.repo.module('rsocket.%s.back_pressure_publisher' % pkg)
+        for top in m.tree.body:
+            if not isinstance(top, ast.FunctionDef):
+                continue
+            for fn in [x for x in ast.walk(top) if isinstance(x, ast.AsyncFunctionDef) and x.name == '_aio_next']:
+                n += 1
+                problems = []
+                broad = 0
+                for h in [x for x in ast.walk(fn) if isinstance(x, ast.ExceptHandler)]:
+                    t = ast.unparse(h.type) if h.type is not None else 'BaseException'
+                    if t in ('Exception', 'BaseException'):
+                        broad += 1
+                        calls = [c for st in h.body for c in ast.walk(st) if isinstance(c, ast.Call) and
+                                 isinstance(c.func, ast.Attribute) and c.func.attr == 'on_error']
+                        if not calls or not h.name or not any(
+                                c.args and isinstance(c.args[0], ast.Name) and c.args[0].id == h.name for c in calls):
+                            problems.append('the handler `except %s` at line %d does not pass the exception to '
+                                            'observer.on_error: a failing source ends in silence' % (t, h.lineno))
+                if broad == 0:
+                    problems.append('no handler for the failures of the wrapped source')
+                for test in [x for x in ast.walk(fn) if isinstance(x, ast.If)]:
+                    tt = ast.unparse(test.test)
+                    for ev, sig in (('OnError', 'on_error'), ('OnCompleted', 'on_completed')):
+                        if 'isinstance' in tt and ev in tt:
+                            body = [c for st in test.body for c in ast.walk(st) if isinstance(c, ast.Call) and
+                                    isinstance(c.func, ast.Attribute) and c.func.attr == sig]
+                            ends = any(isinstance(st, ast.Return) for st in test.body)
+                            if not body or not ends:
+                                problems.append('a materialised %s event is not forwarded as %s followed by return' % (
+                                    ev, sig))
+                rep.add('C20.n', '%s %s._aio_next / failures and terminal events reach the observer' % (pkg, top.name),
+                        (m.relpath, fn.lineno), not problems,
+                        '; '.join(problems) or '%d broad handlers pass the exception to observer.on_error' % broad)
+    rep.require('C20.n', 'feeder tasks of the observable-backed publishers', n, 4)
+
+
+
+RULES = [('C20.a', rule_a), ('C20.b', c06a), ('C20.c', c06b), ('C20.d', rule_d), ('C20.e', rule_e), ('C20.f', rule_f), ('C20.g', rule_g), ('C20.e+C20.g', rule_h), ('C15.d', rule_coroutines), ('C20.i', rule_i), ('C20.j', rule_j), ('C20.k', rule_k), ('C06.e', rule_queue_sources), ('C20.l', rule_empty_filter), ('C20.m', rule_handler_per_connection), ('C20.n', rule_feeder_errors)]
